@@ -538,6 +538,31 @@ func (x *Explorer) intrinsic(fr *Frame, st *State, ins *ssa.Call, callee *ssa.Fu
 			return newErr(st, "errors."+name, 2), true
 		}
 	case pkg == "fmt" && name == "Errorf", pkg == "errors" && name == "New":
+		// fmt.Errorf("…: %w", err): the error that is wrapped, with more text — it is that error's
+		// failure, not a new way to fail
+		if name == "Errorf" {
+			var found *ErrV
+			n := 0
+			for _, a := range args[1:] {
+				if pv, ok := a.(*Ptr); ok {
+					if o := st.mem[pv.O]; o != nil {
+						for _, fv := range o.F {
+							if ev, isE := fv.(*ErrV); isE {
+								found = ev
+								n++
+							}
+						}
+					}
+				}
+				if ev, isE := a.(*ErrV); isE {
+					found = ev
+					n++
+				}
+			}
+			if n == 1 && st.errs[found.ID] != 1 {
+				return found, true
+			}
+		}
 		return newErr(st, pkg+"."+name, 2), true
 	case strings.HasSuffix(pkg, "grpc/status") && (name == "Error" || name == "Errorf"):
 		return newErr(st, "status."+name, 2), true
